@@ -40,11 +40,11 @@ NA_REASONS = {
 }
 
 NOT_BUILT = "simulation target per DESIGN.md §1 but its engine is not built/sound yet in this tree, so it is not claimed"
-for _p in "C14 C22 C23 C26 C27 C35 C36 C37 C39 C42 C44 C45".split():
+for _p in "C14 C22 C23 C26 C27 C35 C36 C37 C39 C44 C45".split():
     NA_REASONS[_p] = NOT_BUILT
 
 ENGINE_INFO = {
-    "E2-build-sim": {"path": "simkit/e2_build.py", "serves_properties": ["C46"],
+    "E2-build-sim": {"path": "simkit/e2_build.py + simkit/e2_determinism.py", "serves_properties": ["C46", "C42"],
                      "kind_free_text": "real cythonize over generated trees with simulator-owned mtimes and simulated process restarts vs dependency-graph model"},
     "E1-cache-sim": {"path": "simkit/e1_cache.py", "serves_properties": ["C48"],
                      "kind_free_text": "multi-process simulation of cythonize on a shared cache directory with seeded scheduling of Cache.py I/O steps, kill and disk-error injection"},
@@ -55,6 +55,12 @@ ENGINE_INFO = {
 }
 
 CHECKS = {
+    "C42": {
+        "engine": "E2-build-sim", "level": "exploration", "design_ref": "DESIGN.md §4 E2 (C42)",
+        "technique": "deterministic simulation of a multi-module build: seeded PYTHONHASHSEED (exec'd servers under setarch -R), seeded module order, process pool replaced by a simulated pool (real forks, seeded job->worker assignment), seeded in-process compile history; every output compared byte-for-byte with the canonical stand-alone compilation",
+        "text": "The real cythonize(force=True, nthreads=W) runs over generated and corpus modules inside an interpreter whose hash seed, module order, worker assignment and prior in-process compilations are chosen by the seed; concurrent.futures.ProcessPoolExecutor is replaced by SimPool so that which forked worker compiles which module after which other module is the simulator's decision. Oracle: each produced C file is byte-identical to the module compiled alone under hash seed 0 in a fresh state. Sampling, not proof.",
+        "note": "The 'compiled with itself' cell of the statement (self-compiled compiler) is not exercised. Pool workers are run one after the other (they share only the file system). Corpus: 4 generated templates + tests/run / Demos .pyx files that compile standalone; a module that fails to build inside a list is dropped (C43's business), counted in probes.",
+    },
     "C46": {
         "engine": "E2-build-sim", "level": "exploration", "design_ref": "DESIGN.md §4 E2",
         "technique": "deterministic simulation with a simulated mtime clock: seeded edit/touch/backdate/clock-jump/restart histories on a real generated tree, real cythonize per simulated process, refinement against a dependency-graph + stamp-rule model and against the files the compiler actually opens (audit hook); ddmin replay",
